@@ -57,7 +57,7 @@ def gen_op(rng, name, npool, opts):  # pylint: disable=too-many-branches,too-man
         cs = [cidx() for _ in range(count)]
         if count > 1 and rng.random() < opts.get('dup_in_batch', 0.3):
             cs[rng.randrange(count)] = cs[0]
-        return {
+        op = {
             'op': name,
             'cs': cs,
             'api': rng.choice(opts['pack_api']),
@@ -69,6 +69,10 @@ def gen_op(rng, name, npool, opts):  # pylint: disable=too-many-branches,too-man
             'callback': rng.random() < 0.2,
             'seed': rng.randrange(1 << 20),
         }
+        if rng.random() < opts.get('pending_rate', 0.12):
+            # "many calls, one commit": 1-3 earlier calls of the same logical batch with do_commit=False
+            op['pending'] = [[cidx() for _ in range(rng.choice([1, 1, 2, 3]))] for _ in range(rng.choice([1, 1, 2, 3]))]
+        return op
     if name == 'pack_loose':
         return {
             'op': name,
